@@ -205,18 +205,52 @@ theorem conns_swapVar (v q : Nat) (o : Option Nat) (s : State) (Q : Rep) (hq : s
   · subst h; simp only [if_true]; cases s.slots v <;> simp
   · simp only [h, if_false]
 
-theorem inv_swapVar {s : State} (h : Inv s) {v q : Nat} {Q : Rep} (o : Option Nat)
-    (hv : repOf s v = some q) (hq : s.reps q = some Q) (hfn : Q.fn = none)
-    (ho : ∀ n, o = some n → n ≠ q ∧ (∀ w, repOf s w ≠ some n) ∧
-      ∃ N, s.reps n = some N ∧ ∀ p, N.parent = some p → p ≠ q ∧ ∃ P fid, s.reps p = some P ∧
-        P.fn = some (.sref fid v)) :
-    Inv (swapVar v q o s) := by
-  have hc := conns_swapVar v q o s Q hq
-  cases o with
-  | none => inv_auto h
-  | some n =>
-    obtain ⟨hn1, hn2, N, hN, hn3⟩ := ho n rfl
-    inv_auto h
+theorem orphan_swapVar {s : State} {v q r : Nat} (h : Orphan s r) : Orphan (swapVar v q none s) r := by
+  intro w hw
+  rw [repOf_swapVar] at hw
+  by_cases hwv : w = v
+  · simp [hwv] at hw
+  · rw [if_neg hwv] at hw; exact h w hw
+
+theorem inv_swapVar {s : State} (h : Inv s) {v q : Nat} {Q : Rep}
+    (hv : repOf s v = some q) (hq : s.reps q = some Q) (hfn : Q.fn = none) :
+    Inv (swapVar v q none s) := by
+  have hc := conns_swapVar v q none s Q hq
+  have hdisj : ∀ c, c ∈ Q.cbs → ∀ r R, s.reps r = some R → c ∈ R.cbs → r = q :=
+    fun c hc1 r R hR hc2 => h.regUniq r R q Q c hR hq hc2 hc1
+  have hkeep : ∀ w r, r ≠ q → repOf s w = some r → repOf (swapVar v q none s) w = some r := by
+    intro w r hrq hw
+    rw [repOf_swapVar]
+    by_cases hwv : w = v
+    · subst hwv; rw [hv] at hw; cases hw; exact absurd rfl hrq
+    · rw [if_neg hwv]; exact hw
+  refine { repAlive := ?_, repUniq := ?_, connReg := ?cr, cbsConn := ?cc, regUniq := ?_, cbsNodup := ?_,
+           parentOk := ?_, trkReg := ?_, trkEnt := ?_, trkNodup := ?_, refOk := ?_, ownOk := ?_, repBound := ?_ }
+  case cr =>
+    intro c w hcw
+    rw [hc c] at hcw
+    by_cases hm : c ∈ Q.cbs
+    · rw [if_pos hm] at hcw; cases hx : s.conns c <;> simp [hx] at hcw
+    · rw [if_neg hm] at hcw
+      obtain ⟨r, R, hR, hmR, hor⟩ := h.connReg c w hcw
+      have hrq : r ≠ q := fun he => by subst he; rw [hq] at hR; cases hR; exact hm hmR
+      refine ⟨r, R, by rw [reps_swapVar, if_neg hrq]; exact hR, hmR, ?_⟩
+      rcases hor with hor | hor
+      · exact .inl (hkeep w r hrq hor)
+      · exact .inr (orphan_swapVar hor)
+  case cc =>
+    intro r R c hR hm
+    rw [reps_swapVar] at hR
+    by_cases hrq : r = q
+    · simp [hrq] at hR
+    · rw [if_neg hrq] at hR
+      obtain ⟨w, hw, hor⟩ := h.cbsConn r R c hR hm
+      have hcn : c ∉ Q.cbs := fun hmq => hrq (hdisj c hmq r R hR hm)
+      refine ⟨w, by rw [hc c, if_neg hcn]; exact hw, ?_⟩
+      rcases hor with hor | hor
+      · exact .inl (hkeep w r hrq hor)
+      · exact .inr (orphan_swapVar hor)
+  all_goals inv_clause h
 
 theorem idle_swapVar {s : State} (h : Idle s) (v q : Nat) (o : Option Nat) : Idle (swapVar v q o s) := by
   unfold Idle at *; st_simp; exact h
